@@ -1,3 +1,485 @@
 import Driver.Common
-/-! stub: replaced by the owner of this driver -/
-def main : IO Unit := Driver.run () (fun s _ => (s, "bad-op"))
+import ScionVerif.Model.Signed
+import ScionVerif.Model.Rpc
+/-!
+Line-protocol driver for the C18 models (`drv_signed`).
+
+The external functions of the models (prost decoders, the P-256 verdicts, the data-plane path parser, the
+socket-address codec) are *oracle tokens* of each request: the harness computes them with the real
+libraries and the model decides what to do with them (check order, casts, error classes, associated data).
+
+Requests (tokens separated by blanks; byte strings hex, `-` = empty):
+
+* `signhdr ALG TS (K0 | K1 keyid) ADN META`                      header fields `SignedMessage::sign` builds
+* `val HB SIG ADN DECHB DECHDR KP WF VERIFY BODYDEC METADEC`      `validate` and `decode_validated`
+* `ent INFO I N (KEY HB SIG)*N DECHB DECHDR KP WF V_0 … V_N`      `validate_signature` of entry I (code's
+                                                                   take_while form and index form)
+* `segrpc …`, `pathrpc …`, `pathto …`                             RPC conversions (see the parsers below)
+-/
+open ScionVerif.Signed ScionVerif.Rpc Driver
+
+/-! ## a tiny token parser -/
+
+abbrev P := StateT (List String) Option
+
+def tok : P String := do
+  match (← get) with
+  | [] => failure
+  | t :: ts => set ts; pure t
+
+def pNat : P Nat := do
+  let t ← tok
+  match t.toNat? with
+  | some n => pure n
+  | none => failure
+
+def pInt : P Int := do
+  let t ← tok
+  match t.toInt? with
+  | some n => pure n
+  | none => failure
+
+def pHex : P Bytes := do
+  let t ← tok
+  match parseHex t with
+  | some b => pure b
+  | none => failure
+
+def pBit : P Bool := do
+  let t ← tok
+  if t == "1" then pure true else if t == "0" then pure false else failure
+
+def pMany {α : Type} (p : P α) : Nat → P (List α)
+  | 0 => pure []
+  | n + 1 => do
+    let a ← p
+    let as ← pMany p n
+    pure (a :: as)
+
+def pCounted {α : Type} (p : P α) : P (List α) := do
+  let n ← pNat
+  if n > 100000 then failure
+  pMany p n
+
+def pEnd : P Unit := do
+  match (← get) with
+  | [] => pure ()
+  | _ => failure
+
+/-! ## rendering -/
+
+def vErrLabel : VErr → String
+  | .invalidHeaderAndBody => "invalid_header_and_body"
+  | .invalidHeader => "invalid_header"
+  | .keyMissing => "key_missing"
+  | .invalidValidationKeyId => "invalid_validation_key_id"
+  | .adLen e a => s!"ad_len {e} {a}"
+  | .invalidDigestAlgorithm => "invalid_digest_algorithm"
+  | .signatureMalformed => "signature_malformed"
+  | .verificationFailed => "verification_failed"
+  | .invalidBody => "invalid_body"
+  | .invalidMetadata => "invalid_metadata"
+
+def rErrLabel : RErr → String
+  | .macLen => "mac_len" | .expTime => "exp_time" | .hfIngress => "hf_ingress" | .hfEgress => "hf_egress"
+  | .ingressMtu => "ingress_mtu" | .missingHopField => "missing_hop_field"
+  | .peerInterface => "peer_interface" | .peerMtu => "peer_mtu" | .missingPeerHopField => "missing_peer_hop_field"
+  | .missingSigned => "missing_signed" | .decodeHB => "decode_hb" | .decodeBody => "decode_body"
+  | .missingHopEntry => "missing_hop_entry" | .decodeInfo => "decode_info" | .timestamp => "timestamp"
+  | .segmentId => "segment_id" | .wildcardEmpty => "wildcard_empty" | .emptyPath => "empty_path"
+  | .rawParse => "raw_parse" | .rawExtra => "raw_extra" | .nextHopParse => "next_hop_parse"
+  | .ifaceCount => "iface_count" | .ifaceId => "iface_id" | .missingExpiration => "missing_expiration"
+  | .mtu => "mtu" | .panic => "panic"
+
+def hdrStr (h : Header) : String :=
+  let ts := match h.ts with | some (s, n) => s!"{s} {n}" | none => "none"
+  s!"{h.alg} {toHex h.keyId} {ts} {h.adLen} {toHex h.metadata}"
+
+/-! ## signed messages -/
+
+/-- oracle-backed instances: the decoders / verdicts are whatever the request says -/
+def oracleCodec (decHB : Option (Bytes × Bytes)) (decHdr : Option Header) : Codec :=
+  { encHB := fun _ _ => [], decHB := fun _ => decHB, encHdr := fun _ => [], decHdr := fun _ => decHdr }
+
+def oracleScheme (wf : Bool) (verify : Bool) : Scheme Unit Unit :=
+  { pk := id, sign := fun _ _ _ => none, wf := fun _ => wf, verify := fun _ _ _ _ => verify }
+
+def pDecHB : P (Option (Bytes × Bytes)) := do
+  let t ← tok
+  if t == "H0" then pure none
+  else if t == "H1" then do
+    let h ← pHex
+    let b ← pHex
+    pure (some (h, b))
+  else failure
+
+def pDecHdr : P (Option Header) := do
+  let t ← tok
+  if t == "D0" then pure none
+  else if t == "D1" then do
+    let alg ← pInt
+    let keyId ← pHex
+    let adLen ← pInt
+    let md ← pHex
+    pure (some { alg := alg, keyId := keyId, ts := none, metadata := md, adLen := adLen })
+  else failure
+
+def pKp : P (Except VErr Unit) := do
+  let t ← tok
+  if t == "ok" then pure (.ok ())
+  else if t == "missing" then pure (.error .keyMissing)
+  else if t == "badid" then pure (.error .invalidValidationKeyId)
+  else failure
+
+def valStr : Except VErr (Header × Bytes) → String
+  | .ok (h, b) => s!"ok {h.alg} {toHex h.keyId} {h.adLen} {toHex h.metadata} {toHex b}"
+  | .error e => s!"err {vErrLabel e}"
+
+def reqSignHdr : P String := do
+  let algN ← pNat
+  let ts ← pNat
+  let k ← tok
+  let keyId ← (if k == "K0" then pure none else if k == "K1" then (do let b ← pHex; pure (some b)) else failure : P (Option Bytes))
+  let adN ← pNat
+  let md ← pHex
+  pEnd
+  let a ← (match algN with | 1 => pure Alg.sha256 | 2 => pure Alg.sha384 | 3 => pure Alg.sha512 | _ => failure : P Alg)
+  -- run the model's `sign` with a codec that exposes the header it built
+  let seen : Codec :=
+    { encHB := fun h _ => h, decHB := fun _ => none,
+      encHdr := fun h => (hdrStr h).toUTF8.toList, decHdr := fun _ => none }
+  let S : Scheme Unit Unit := { pk := id, sign := fun _ _ m => some m, wf := fun _ => true, verify := fun _ _ _ _ => true }
+  match sign seen S () a ts keyId adN [] [] md with
+  | none => pure "none"
+  | some m => pure (String.fromUTF8! m.hb.toByteArray)
+
+def reqVal : P String := do
+  let hb ← pHex
+  let sig ← pHex
+  let adN ← pNat
+  let decHB ← pDecHB
+  let decHdr ← pDecHdr
+  let kp ← pKp
+  let wf ← pBit
+  let ver ← pBit
+  let bodyDec ← pBit
+  let metaDec ← pBit
+  pEnd
+  let c := oracleCodec decHB decHdr
+  let S := oracleScheme wf ver
+  let m : SignedMsg := { hb := hb, sig := sig }
+  let v := validate c S (fun _ => kp) m adN []
+  let dv := decodeValidated c S (fun _ => kp) (fun _ => if bodyDec then some () else none)
+    (fun _ => if metaDec then some () else none) m adN []
+  let dvs := match dv with
+    | .ok (_, none) => "ok nometa"
+    | .ok (_, some _) => "ok meta"
+    | .error e => s!"err {vErrLabel e}"
+  pure s!"{valStr v} | {dvs}"
+
+def pEntry : P (SEntry Nat) := do
+  let k ← pNat
+  let hb ← pHex
+  let sig ← pHex
+  pure { entry := k, signed := { hb := hb, sig := sig } }
+
+def verdictStr : Except VErr (Header × Bytes) → String
+  | .ok _ => "ok"
+  | .error e => s!"err {vErrLabel e}"
+
+/-- verify-oracle token: `0`, `1` or `?` (not computed by the harness yet) -/
+def pTri : P (Option Bool) := do
+  let t ← tok
+  if t == "1" then pure (some true) else if t == "0" then pure (some false)
+  else if t == "?" then pure none else failure
+
+def reqEnt : P String := do
+  let info ← pHex
+  let i ← pNat
+  let es ← pCounted pEntry
+  let decHB ← pDecHB
+  let decHdr ← pDecHdr
+  let kp ← pKp
+  let wf ← pBit
+  let vs ← pMany pTri (es.length + 1)
+  pEnd
+  match es[i]? with
+  | none => failure
+  | some e =>
+    let seg : Seg Nat := { info := info, entries := es }
+    let c := oracleCodec decHB decHdr
+    -- the verify oracle is indexed by the number of entries covered by the associated data
+    let covered (ad : List Bytes) : Nat := (ad.length - 1) / 2
+    let run (ad : List Bytes) (bit : Bool) : Except VErr (Header × Bytes) :=
+      validate c (oracleScheme wf bit) (fun _ => kp) e.signed (total ad) ad
+    let tw := assocTW seg e.entry
+    let ix := assocIdx seg i
+    -- is the verdict of the scheme consulted, and if so do we know it?
+    let missing (ad : List Bytes) : Bool :=
+      (vs.getD (covered ad) none).isNone && (run ad true).isOk
+    if missing tw || missing ix then
+      pure s!"need {covered tw} {covered ix}"
+    else
+      let fin (ad : List Bytes) := run ad ((vs.getD (covered ad) none).getD false)
+      pure s!"tw {covered tw} {total tw} {verdictStr (fin tw)} | idx {covered ix} {total ix} {verdictStr (fin ix)}"
+
+/-! ## segments over RPC -/
+
+def pHF : P (Option RHopField) := do
+  let t ← tok
+  if t == "F0" then pure none
+  else if t == "F1" then do
+    let ing ← pNat
+    let eg ← pNat
+    let exp ← pNat
+    let mac ← pHex
+    pure (some { ingress := ing, egress := eg, expTime := exp, mac := mac })
+  else failure
+
+def pHopEntry : P (Option RHopEntry) := do
+  let t ← tok
+  if t == "E0" then pure none
+  else if t == "E1" then do
+    let mtu ← pNat
+    let hf ← pHF
+    pure (some { hopField := hf, ingressMtu := mtu })
+  else failure
+
+def pPeer : P RPeerEntry := do
+  let ia ← pNat
+  let ifc ← pNat
+  let mtu ← pNat
+  let hf ← pHF
+  pure { peerIsdAs := ia, peerInterface := ifc, peerMtu := mtu, hopField := hf }
+
+def pBody : P (Option RBody) := do
+  let t ← tok
+  if t == "B0" then pure none
+  else if t == "B1" then do
+    let ia ← pNat
+    let nx ← pNat
+    let mtu ← pNat
+    let he ← pHopEntry
+    let ps ← pCounted pPeer
+    pure (some { isdAs := ia, nextIsdAs := nx, hopEntry := he, peers := ps, mtu := mtu })
+  else failure
+
+/-- an RPC AS entry together with the decoder oracle for its `header_and_body` -/
+def pRAsEntry : P (RAsEntry × Option (Option RBody)) := do
+  let t ← tok
+  if t == "S0" then pure ({ signed := none }, none)
+  else if t == "S1" then do
+    let hb ← pHex
+    let sig ← pHex
+    let h ← tok
+    if h == "H0" then pure ({ signed := some { hb := hb, sig := sig } }, none)
+    else if h == "H1" then do
+      let b ← pBody
+      pure ({ signed := some { hb := hb, sig := sig } }, some b)
+    else failure
+  else failure
+
+def hfStr (h : HopField) : String := s!"{h.exp} {h.ingress} {h.egress} {toHex h.mac}"
+
+def entryStr (e : SEntry AsEntry) : String :=
+  let a := e.entry
+  let peers := String.join (a.peers.map fun p => s!" {p.peer} {p.peerInterface} {p.peerMtu} {hfStr p.hopField}")
+  s!"{a.local_} {a.next} {a.mtu} {a.hopEntry.ingressMtu} {hfStr a.hopEntry.hopField} {a.peers.length}{peers} {toHex a.extensions} {toHex a.unsignedExtensions} {toHex e.signed.hb} {toHex e.signed.sig}"
+
+def segStr (s : Segment) : String :=
+  s!"{s.info.timestamp} {s.info.segmentId} {toHex s.info.encoded} {s.entries.length}" ++
+    String.join (s.entries.map fun e => " " ++ entryStr e)
+
+def reqSegRpc : P String := do
+  let infoBytes ← pHex
+  let t ← tok
+  let decInfo ← (if t == "I0" then pure none else if t == "I1" then (do
+      let ts ← pInt
+      let sid ← pNat
+      pure (some ({ timestamp := ts, segmentId := sid } : RSegInfo))) else failure : P (Option RSegInfo))
+  let encInfo ← pHex
+  let es ← pCounted pRAsEntry
+  pEnd
+  -- the decoders are association lists keyed by the `header_and_body` bytes (prost is a function of them);
+  -- the "body" handed from `decHB` to `decBody` is that key again
+  let lookup (hb : Bytes) : Option (Option RBody) :=
+    (es.find? fun x => match x.1.signed with
+      | some sm => sm.hb == hb
+      | none => false).bind (·.2)
+  let r : RSegment := { segmentInfo := infoBytes, asEntries := es.map (·.1) }
+  let pc : PCodec :=
+    { c := { encHB := fun _ _ => [], encHdr := fun _ => [], decHdr := fun _ => none,
+             decHB := fun hb => match lookup hb with
+               | none => none
+               | some _ => some ([], hb) },
+      decBody := fun key => match lookup key with
+        | some (some b) => some b
+        | _ => none,
+      encBody := fun _ => [],
+      decInfo := fun _ => decInfo,
+      encInfo := fun _ => encInfo }
+  match segFromRpc pc r with
+  | .error e => pure (if e == .panic then "panic" else s!"err {rErrLabel e}")
+  | .ok s => pure s!"ok {segStr s}"
+
+/-! ## paths over RPC -/
+
+def pOpt {α : Type} (none_ some_ : String) (p : P α) : P (Option α) := do
+  let t ← tok
+  if t == none_ then pure none
+  else if t == some_ then (do let a ← p; pure (some a))
+  else failure
+
+def pPair {α β : Type} (p : P α) (q : P β) : P (α × β) := do
+  let a ← p
+  let b ← q
+  pure (a, b)
+
+def pRGeo : P RGeo := do
+  let lat ← pNat
+  let lon ← pNat
+  let a ← pHex
+  pure { lat := lat, lon := lon, address := a }
+
+def pRIface : P RIface := do
+  let ia ← pNat
+  let id ← pNat
+  pure { isdAs := ia, id := id }
+
+def linkTypeStr : LinkType → String
+  | .unset => "unset" | .direct => "direct" | .multiHop => "multihop" | .openNet => "opennet"
+  | .unknown v => s!"unknown:{v}"
+
+def pLinkType : P LinkType := do
+  let t ← tok
+  if t == "unset" then pure .unset
+  else if t == "direct" then pure .direct
+  else if t == "multihop" then pure .multiHop
+  else if t == "opennet" then pure .openNet
+  else match t.splitOn ":" with
+    | ["unknown", v] => match v.toNat? with
+      | some n => pure (.unknown n)
+      | none => failure
+    | _ => failure
+
+def optStr {α : Type} (none_ some_ : String) (f : α → String) : Option α → String
+  | none => none_
+  | some a => s!"{some_} {f a}"
+
+def ifMetaStr (m : IfMeta) : String :=
+  let geo := optStr "G0" "G1" (fun (g : Geo) => s!"{g.lat} {g.lon} " ++ optStr "A0" "A1" toHex g.address) m.geo
+  let lat := optStr "L0" "L1" (fun (d : Nat × Nat) => s!"{d.1} {d.2}") m.latency
+  let bw := optStr "W0" "W1" (fun (b : Nat) => s!"{b}") m.bandwidth
+  let link := match m.link with
+    | none => "K0"
+    | some (.ingress n) => s!"KI {n}"
+    | some (.egress t) => s!"KE {linkTypeStr t}"
+  s!"{m.isdAs} {m.id} {geo} {lat} {bw} {link}"
+
+def metaStr (m : PathMeta) : String :=
+  let ifs := optStr "I0" "I1" (fun (l : List IfMeta) => s!"{l.length}" ++ String.join (l.map fun x => " " ++ ifMetaStr x)) m.interfaces
+  let epic := optStr "P0" "P1" (fun (e : Bytes × Bytes) => s!"{toHex e.1} {toHex e.2}") m.epic
+  let notes := optStr "N0" "N1" (fun (l : List Bytes) => s!"{l.length}" ++ String.join (l.map fun x => " " ++ toHex x)) m.notes
+  s!"{m.expiration} {m.mtu} {ifs} {epic} {notes}"
+
+def pathStr (p : Path Bytes) : String :=
+  let dp := match p.dp with | .empty => "E" | .standard raw => s!"S {toHex raw}"
+  let nh := optStr "H0" "H1" toHex p.nextHop
+  s!"{p.src} {p.dst} {dp} {nh} " ++ optStr "M0" "M1" metaStr p.pmeta
+
+def pIfMeta : P IfMeta := do
+  let ia ← pNat
+  let id ← pNat
+  let geo ← pOpt "G0" "G1" (do
+    let lat ← pNat
+    let lon ← pNat
+    let a ← pOpt "A0" "A1" pHex
+    pure ({ lat := lat, lon := lon, address := a } : Geo))
+  let lat ← pOpt "L0" "L1" (pPair pNat pNat)
+  let bw ← pOpt "W0" "W1" pNat
+  let t ← tok
+  let link ← (if t == "K0" then pure none
+    else if t == "KI" then (do let n ← pNat; pure (some (LinkMeta.ingress n)))
+    else if t == "KE" then (do let l ← pLinkType; pure (some (LinkMeta.egress l)))
+    else failure : P (Option LinkMeta))
+  pure { isdAs := ia, id := id, geo := geo, latency := lat, bandwidth := bw, link := link }
+
+def pMeta : P PathMeta := do
+  let exp ← pNat
+  let mtu ← pNat
+  let ifs ← pOpt "I0" "I1" (pCounted pIfMeta)
+  let epic ← pOpt "P0" "P1" (pPair pHex pHex)
+  let notes ← pOpt "N0" "N1" (pCounted pHex)
+  pure { expiration := exp, mtu := mtu, interfaces := ifs, epic := epic, notes := notes }
+
+def pPath : P (Path Bytes) := do
+  let src ← pNat
+  let dst ← pNat
+  let t ← tok
+  let dp ← (if t == "E" then pure Dp.empty else if t == "S" then (do let r ← pHex; pure (Dp.standard r)) else failure : P Dp)
+  let nh ← pOpt "H0" "H1" pHex
+  let m ← pOpt "M0" "M1" pMeta
+  pure { src := src, dst := dst, dp := dp, pmeta := m, nextHop := nh }
+
+def rpathStr (r : RPath) : String :=
+  let cnt {α : Type} (f : α → String) (l : List α) : String := s!"{l.length}" ++ String.join (l.map fun x => " " ++ f x)
+  let addr := optStr "A0" "A1" toHex r.ifaceAddr
+  let exp := optStr "X0" "X1" (fun (e : Int × Int) => s!"{e.1} {e.2}") r.expiration
+  let epic := optStr "P0" "P1" (fun (e : Bytes × Bytes) => s!"{toHex e.1} {toHex e.2}") r.epic
+  s!"{toHex r.raw} {addr} {cnt (fun (i : RIface) => s!"{i.isdAs} {i.id}") r.interfaces} {r.mtu} {exp} " ++
+  s!"{cnt (fun (d : Int × Int) => s!"{d.1} {d.2}") r.latency} {cnt (fun (b : Nat) => s!"{b}") r.bandwidth} " ++
+  s!"{cnt (fun (g : RGeo) => s!"{g.lat} {g.lon} {toHex g.address}") r.geo} {cnt (fun (i : Int) => s!"{i}") r.linkType} " ++
+  s!"{cnt (fun (h : Nat) => s!"{h}") r.internalHops} {cnt toHex r.notes} {epic}"
+
+def pRPath : P RPath := do
+  let raw ← pHex
+  let addr ← pOpt "A0" "A1" pHex
+  let ifs ← pCounted pRIface
+  let mtu ← pNat
+  let exp ← pOpt "X0" "X1" (pPair pInt pInt)
+  let lat ← pCounted (pPair pInt pInt)
+  let bw ← pCounted pNat
+  let geo ← pCounted pRGeo
+  let lt ← pCounted pInt
+  let ih ← pCounted pNat
+  let notes ← pCounted pHex
+  let epic ← pOpt "P0" "P1" (pPair pHex pHex)
+  pure { raw := raw, ifaceAddr := addr, interfaces := ifs, mtu := mtu, expiration := exp, latency := lat,
+         bandwidth := bw, geo := geo, linkType := lt, internalHops := ih, notes := notes, epic := epic }
+
+/-- `pathrpc SRC DST RAWPARSE ADDRPARSE <rpath>`: RAWPARSE ∈ err|extra|exact, ADDRPARSE = `n` | `y canon` -/
+def reqPathRpc : P String := do
+  let src ← pNat
+  let dst ← pNat
+  let rp ← tok
+  let rawParse ← (if rp == "err" then pure RawParse.err else if rp == "extra" then pure RawParse.extra
+    else if rp == "exact" then pure RawParse.exact else failure : P RawParse)
+  let addrParse ← pOpt "n" "y" pHex
+  let r ← pRPath
+  pEnd
+  let env : PathEnv Bytes := { parseRaw := fun _ => rawParse, parseAddr := fun _ => addrParse, showAddr := id }
+  match pathFromRpc env r src dst with
+  | .error e => pure (if e == .panic then "panic" else s!"err {rErrLabel e}")
+  | .ok p => pure s!"ok {pathStr p}"
+
+def reqPathTo : P String := do
+  let p ← pPath
+  pEnd
+  let env : PathEnv Bytes := { parseRaw := fun _ => .exact, parseAddr := fun b => some b, showAddr := id }
+  pure (rpathStr (pathToRpc env p))
+
+def runP (p : P String) (args : List String) : String :=
+  match p.run args with
+  | some (s, _) => s
+  | none => "bad-op"
+
+def step (st : Unit) : List String → Unit × String
+  | "signhdr" :: args => (st, runP reqSignHdr args)
+  | "val" :: args => (st, runP reqVal args)
+  | "ent" :: args => (st, runP reqEnt args)
+  | "segrpc" :: args => (st, runP reqSegRpc args)
+  | "pathrpc" :: args => (st, runP reqPathRpc args)
+  | "pathto" :: args => (st, runP reqPathTo args)
+  | _ => (st, "bad-op")
+
+def main : IO Unit := Driver.run () step
